@@ -652,6 +652,8 @@ func TestVerifC20_Concurrent(t *testing.T) {
 type vC20SrvOp struct {
 	kind    string // respond, punch, cancel, sleep, plain
 	att     int
+	variant int  // respond/punch: 0 = the attempt's metadata, 1 = same nonce other key, 2 = same key other nonce
+	invalid bool // respond: metadata that does not parse
 	typ     byte
 	pad     int
 	timeout time.Duration
@@ -662,9 +664,9 @@ type vC20SrvOp struct {
 func (o vC20SrvOp) String() string {
 	switch o.kind {
 	case "respond":
-		return fmt.Sprintf("respond(%d,timeout=%v)", o.att, o.timeout)
+		return fmt.Sprintf("respond(%d,meta v%d,invalid=%v,timeout=%v)", o.att, o.variant, o.invalid, o.timeout)
 	case "punch":
-		return fmt.Sprintf("punch(%d,type=%d,pad=%d)", o.att, o.typ, o.pad)
+		return fmt.Sprintf("punch(%d,meta v%d,type=%d,pad=%d)", o.att, o.variant, o.typ, o.pad)
 	case "cancel":
 		return fmt.Sprintf("cancel(%d)", o.att)
 	case "sleep":
@@ -681,6 +683,20 @@ func vC20SrvTimeout(ms int) time.Duration {
 		return 0
 	}
 	return time.Duration(ms)*time.Millisecond + 500*time.Microsecond
+}
+
+// vC20SrvMeta: metadata variant v of an attempt; all variants of all attempts
+// are pairwise different (the attempts differ in one nibble, the variants in
+// two nibbles of the last key / nonce byte).
+func vC20SrvMeta(att []vC20Meta, i, v int) vC20Meta {
+	m := att[i]
+	switch v {
+	case 1:
+		m.key[31] ^= 0x55
+	case 2:
+		m.nonce[15] ^= 0xAA
+	}
+	return m
 }
 
 type vC20SrvResult struct {
@@ -700,9 +716,10 @@ func TestVerifC20_ServerPuncher(t *testing.T) {
 			switch c := rapid.IntRange(0, 9).Draw(rt, "op"); {
 			case c <= 2:
 				ops = append(ops, vC20SrvOp{kind: "respond", att: rapid.IntRange(0, 3).Draw(rt, "att"),
+					variant: rapid.SampledFrom([]int{0, 0, 0, 1, 2}).Draw(rt, "variant"), invalid: rapid.IntRange(0, 7).Draw(rt, "invalid") == 0,
 					timeout: vC20SrvTimeout(rapid.SampledFrom([]int{0, 300, 1000, 5000}).Draw(rt, "timeoutMs"))})
 			case c <= 6:
-				ops = append(ops, vC20SrvOp{kind: "punch", att: rapid.IntRange(0, 3).Draw(rt, "att"), typ: byte(rapid.IntRange(1, 2).Draw(rt, "typ")),
+				ops = append(ops, vC20SrvOp{kind: "punch", att: rapid.IntRange(0, 3).Draw(rt, "att"), variant: rapid.SampledFrom([]int{0, 0, 0, 1, 2}).Draw(rt, "variant"), typ: byte(rapid.IntRange(1, 2).Draw(rt, "typ")),
 					pad: rapid.SampledFrom([]int{0, 1, 100, 1024}).Draw(rt, "pad"), seed: rapid.Uint64().Draw(rt, "seed")})
 			case c == 7:
 				ops = append(ops, vC20SrvOp{kind: "cancel", att: rapid.IntRange(0, 3).Draw(rt, "att")})
@@ -755,6 +772,7 @@ func TestVerifC20_ServerPuncher(t *testing.T) {
 				done    chan vC20SrvResult
 				cancel  context.CancelFunc
 				expires time.Time
+				variant int
 			}
 			act := map[int]*active{}
 			local := []netip.AddrPort{netip.MustParseAddrPort("192.0.2.1:4433")}
@@ -802,19 +820,47 @@ func TestVerifC20_ServerPuncher(t *testing.T) {
 				trace = append(trace, op.String())
 				switch op.kind {
 				case "respond":
-					if act[op.att] != nil {
-						trace[len(trace)-1] += "(skipped: active)"
+					if act[op.att] != nil || op.invalid {
+						// A Respond for an id that is in flight (server_punch.go: "duplicate id"),
+						// or with metadata that does not parse, is rejected and must leave the
+						// demux exactly as it was: the in-flight attempt keeps its metadata.
+						pm := vC20SrvMeta(att, op.att, op.variant).pm()
+						if op.invalid {
+							pm = vC20BadMetas[(op.att+op.variant)%len(vC20BadMetas)]
+						}
+						dup := make(chan vC20SrvResult, 1)
+						id, to := fmt.Sprintf("attempt-%d", op.att), op.timeout
+						go func() {
+							r, e := sp.Respond(ctx, id, local, peer, pm, PunchConfig{Timeout: to})
+							dup <- vC20SrvResult{r, e}
+						}()
+						synctest.Wait()
+						select {
+						case r := <-dup:
+							if r.err == nil {
+								fail("Respond(%s) with in-flight id / invalid metadata returned a result %+v instead of an error", id, r.res)
+							}
+						default:
+							fail("Respond(%s) for an id that is already in flight (or with invalid metadata) was not rejected", id)
+						}
+						if act[op.att] != nil {
+							near = true
+							trace[len(trace)-1] += "(duplicate of in-flight attempt)"
+							if r, ok := finished(op.att); ok {
+								fail("in-flight Respond(%s) returned (%+v, %v) when a duplicate Respond was rejected", id, r.res, r.err)
+							}
+						}
 						continue
 					}
 					rctx, cancel := context.WithCancel(ctx)
-					a := &active{done: make(chan vC20SrvResult, 1), cancel: cancel}
+					a := &active{done: make(chan vC20SrvResult, 1), cancel: cancel, variant: op.variant}
 					eff := op.timeout
 					if eff == 0 {
 						eff = 10 * time.Second
 					}
 					a.expires = time.Now().Add(eff)
 					act[op.att] = a
-					id, m, to := fmt.Sprintf("attempt-%d", op.att), att[op.att], op.timeout
+					id, m, to := fmt.Sprintf("attempt-%d", op.att), vC20SrvMeta(att, op.att, op.variant), op.timeout
 					go func() {
 						r, e := sp.Respond(rctx, id, local, peer, m.pm(), PunchConfig{Timeout: to})
 						a.done <- vC20SrvResult{r, e}
@@ -853,10 +899,21 @@ func TestVerifC20_ServerPuncher(t *testing.T) {
 						fail("QUIC-like packet withheld")
 					}
 				case "punch":
-					m := att[op.att]
+					m := vC20SrvMeta(att, op.att, op.variant)
 					r := vC20Fill(op.seed, 8+op.pad)
 					b := vC20Encode(op.typ, m, r[:8], r[8:])
 					a := act[op.att]
+					if a != nil && a.variant != op.variant {
+						// metadata the in-flight attempt was NOT registered with (possibly offered by a rejected duplicate)
+						near = true
+						if _, passed := inject(b); !passed {
+							fail("packet under metadata v%d withheld although attempt-%d is in flight with metadata v%d only: %s", op.variant, op.att, a.variant, vC20Hex(b))
+						}
+						if r, ok := finished(op.att); ok {
+							fail("Respond(attempt-%d) (metadata v%d) returned (%+v, %v) on a packet under metadata v%d", op.att, a.variant, r.res, r.err, op.variant)
+						}
+						continue
+					}
 					pkt, passed := inject(b)
 					if a == nil {
 						near = true
